@@ -183,10 +183,14 @@ _QS = _shards([None, 'key_arg', 'in_handler', 'out_handler', 'unser_value', 'dis
               [('key_arg', 'discard_op')], _QOPS, _X) + [{'f1': 'key_resolver', 'f2': None, 'first': _o('R')},
                                                          {'f1': 'force_body', 'f2': None, 'first': _o('A', 1)}]
 _TOPS2 = [_o('A', 1), _o('R'), _o('H'), _o('O', 1), _o('U')]
+_TPAIRS = [('key_arg', 'discard_op'), ('in_handler', 'out_handler'), ('key_arg', 'force_body'), ('discard_body', 'key_arg'),
+           ('unser_value', 'discard_op'), ('in_handler', 'discard_body'), ('out_handler', 'discard_body'),
+           ('key_resolver', 'unser_value'), ('force_op', 'discard_op'), ('force_body', 'in_handler'), ('key_arg', 'out_handler'),
+           ('discard_op', 'discard_body')]
 # thorough: the heavier fault kinds on programs <= 3, the other single faults and all 36 pairs on programs <= 2
 _TS = _shards([None, 'key_arg', 'in_handler', 'discard_body', 'unser_value'], [], _TOPS2, []) + \
       [dict(x, **{'b.L': 2}) for x in _shards(['key_resolver', 'out_handler', 'discard_op', 'force_op', 'force_body'],
-                                              [(a, b) for a in FAULT_KINDS for b in FAULT_KINDS if a < b], _TOPS2,
+                                              _TPAIRS, _TOPS2,
                                               _X + [{'f1': 'key_arg', 'f2': None, 'fail_save': True},
                                                     {'f1': 'discard_body', 'f2': None, 'copy': True}])]
 _W = {'f1': 'key_arg', 'f2': None, 'first': _o('A', 1)}
